@@ -504,7 +504,13 @@ func runConc(id int, seed uint64, idx int, outDir string, cf *gallina.CaseFile, 
 	}
 	defer os.RemoveAll(dir)
 
-	qm := remote.VerifNewQueueManager(promslog.NewNopLogger(), dir, cfg, mapLabels(ext), rcfgs, cl, flushDeadline, false, false, false)
+	logger := promslog.NewNopLogger()
+	if os.Getenv("VERIF_C40_ONLY") != "" {
+		lvl := promslog.NewLevel()
+		_ = lvl.Set("debug")
+		logger = promslog.New(&promslog.Config{Level: lvl})
+	}
+	qm := remote.VerifNewQueueManager(logger, dir, cfg, mapLabels(ext), rcfgs, cl, flushDeadline, false, false, false)
 
 	// mirror of the series bookkeeping, to classify each sample
 	type known struct {
@@ -559,6 +565,30 @@ func runConc(id int, seed uint64, idx int, outDir string, cf *gallina.CaseFile, 
 		}
 	}
 	qm.Start()
+	if wal {
+		// "Written after the queue started" means after the watcher has listed the segments and is
+		// tailing the last one: a segment that is rotated away before that moment is replayed for
+		// series records only (samples in it are skipped by design).  So wait for the watcher
+		// before feeding: a probe sample of a series that was never stored must show up in
+		// droppedSamplesTotal{unintentionally_dropped_series}.
+		_, _, _, _, dv := qm.VerifCounters()
+		_, _, ru := remote.VerifDropReasons()
+		fed = append(fed, gallina.Pair(gallina.ZU(neverRef), gallina.Z(3)))
+		fedClass[3]++
+		must(wl.Log(enc.Samples([]record.RefSample{{Ref: chunks.HeadSeriesRef(neverRef), T: tBase, V: 0}}, nil)))
+		started := false
+		for i := 0; i < 24000; i++ { // up to 120 s
+			qm.VerifNotify()
+			if counterValue(dv.WithLabelValues(ru)) >= 1 {
+				started = true
+				break
+			}
+			time.Sleep(5 * time.Millisecond)
+		}
+		if !started {
+			meta.GoViol = append(meta.GoViol, gallina.GoViolation{ID: strconv.Itoa(id), Shape: "watcher-not-started", What: "the WAL watcher did not hand the probe sample to Append within 120 s"})
+		}
+	}
 
 	var feederDone atomic.Bool
 	var progress atomic.Int64
